@@ -90,6 +90,7 @@ class Bus(object):
         self.last_pushed = {}        # id(handler) -> (q, r) of the candidate it last pushed
         self.last_in_state = {}      # id(handler) -> snapshot at entry of its last send_event_time
         self.pending = {}            # id(handler) -> in-state identifiers, reconstructed from activator return values
+        self.live = {}               # id(handler) -> (q, r) of its candidate that was pushed and neither trashed nor returned
         self.n_events = 0
         self.n_legs = 0
         self.last_commit_time = None
@@ -168,11 +169,13 @@ class Bus(object):
             r = act.get_trashable_events(preceding)
             for h in r:
                 bus.pending.pop(id(h), None)
+                bus.live.pop(id(h), None)
             bus.emit("on_trash", preceding, r)
             return r
 
         def push_event(time, handler):
             bus.last_pushed[id(handler)] = (time.quotient, time.remainder)
+            bus.live[id(handler)] = (time.quotient, time.remainder)
             bus.emit("on_push", handler, (time.quotient, time.remainder))
             return sched.push_event(time, handler)
 
@@ -180,6 +183,7 @@ class Bus(object):
             h = sched.get_succeeding_event()
             bus.last_returned = h
             bus.emit("on_get", h)
+            bus.live.pop(id(h), None)
             return h
 
         def write(name, *args):
